@@ -115,8 +115,10 @@ func (t *zzTransport) Writev(buffs transport.Buffers) (int64, error) {
 
 func (t *zzTransport) Flush() error {
 	if t.yield {
-		t.inFlush = true
-		vrt.Yield() // a flush is a system call, not an atomic step: "flush in progress" is an observable state
+		// a flush is a system call, not an atomic step: "flush of written bytes in progress" is an observable
+		// state (a flush with nothing written since the last one transmits nothing and is not part of a batch)
+		t.inFlush = t.unflushed > 0
+		vrt.Yield()
 		t.inFlush = false
 	}
 	t.flushes++
@@ -147,6 +149,9 @@ func (t *zzTransport) Read(p []byte) (int, error) {
 }
 
 func (t *zzTransport) Close() error {
+	if t.yield {
+		vrt.Yield() // the mock's state is plain memory: every transport call is a scheduling point
+	}
 	t.closes++
 	if t.inWrite || t.inFlush {
 		t.closedWhileWriting = true
